@@ -29,15 +29,30 @@ use std::pin::Pin;
 use std::rc::Rc;
 use std::task::{Context, Poll};
 use std::time::{Duration, Instant};
+use tarpc::server::limits::channels_per_key::TrackedChannel;
 use tarpc::server::limits::requests_per_channel::MaxRequests;
 use tarpc::server::{serve, BaseChannel, Channel, Config, TrackedRequest};
 use tarpc::{ChannelError, ClientMessage, Response};
 
 // ------------------------------------------------------------------------------- the probe
 
+type Tracked = TrackedChannel<Base, u64>;
+
+/// The channel under the probe: the bare BaseChannel, the limiter over it, and both again behind
+/// `TrackedChannel` (the decorator `Incoming::max_channels_per_key` hands out; channels_per_key.rs
+/// 63-134: every Stream / Sink / Channel method must pass through unchanged).
 enum Inner {
     Plain(Pin<Box<Base>>),
     Lim(Pin<Box<MaxRequests<Base>>>),
+    Tracked(Pin<Box<Tracked>>),
+    TrackedLim(Pin<Box<MaxRequests<Tracked>>>),
+}
+
+fn tracked(ch: Base) -> Tracked {
+    use futures::{FutureExt, StreamExt};
+    use tarpc::server::incoming::Incoming;
+    let mut s = Box::pin(futures::stream::iter(vec![ch]).max_channels_per_key(1, |_: &Base| 7u64));
+    s.next().now_or_never().expect("ready").expect("one channel")
 }
 
 #[derive(Default)]
@@ -63,6 +78,8 @@ impl Probe {
         let g = match &self.inner {
             Inner::Plain(c) => c.verif_gauges(),
             Inner::Lim(c) => c.get_ref().verif_gauges(),
+            Inner::Tracked(c) => c.get_ref().verif_gauges(),
+            Inner::TrackedLim(c) => c.get_ref().get_ref().verif_gauges(),
         };
         self.st.borrow_mut().gauges = g;
     }
@@ -88,6 +105,8 @@ impl Stream for Probe {
         let r = match &mut this.inner {
             Inner::Plain(c) => c.as_mut().poll_next(cx),
             Inner::Lim(c) => c.as_mut().poll_next(cx),
+            Inner::Tracked(c) => c.as_mut().poll_next(cx),
+            Inner::TrackedLim(c) => c.as_mut().poll_next(cx),
         };
         match &r {
             Poll::Ready(Some(Ok(t))) => {
@@ -114,6 +133,8 @@ impl Sink<Response<u64>> for Probe {
         let r = match &mut this.inner {
             Inner::Plain(c) => c.as_mut().poll_ready(cx),
             Inner::Lim(c) => c.as_mut().poll_ready(cx),
+            Inner::Tracked(c) => c.as_mut().poll_ready(cx),
+            Inner::TrackedLim(c) => c.as_mut().poll_ready(cx),
         };
         this.note_err(&r);
         r
@@ -123,6 +144,8 @@ impl Sink<Response<u64>> for Probe {
         let r = match &mut this.inner {
             Inner::Plain(c) => c.as_mut().start_send(item),
             Inner::Lim(c) => c.as_mut().start_send(item),
+            Inner::Tracked(c) => c.as_mut().start_send(item),
+            Inner::TrackedLim(c) => c.as_mut().start_send(item),
         };
         if let Err(e) = &r {
             this.st.borrow_mut().err = Some(srv::activity(e));
@@ -135,6 +158,8 @@ impl Sink<Response<u64>> for Probe {
         let r = match &mut this.inner {
             Inner::Plain(c) => c.as_mut().poll_flush(cx),
             Inner::Lim(c) => c.as_mut().poll_flush(cx),
+            Inner::Tracked(c) => c.as_mut().poll_flush(cx),
+            Inner::TrackedLim(c) => c.as_mut().poll_flush(cx),
         };
         this.note_err(&r);
         r
@@ -144,6 +169,8 @@ impl Sink<Response<u64>> for Probe {
         let r = match &mut this.inner {
             Inner::Plain(c) => c.as_mut().poll_close(cx),
             Inner::Lim(c) => c.as_mut().poll_close(cx),
+            Inner::Tracked(c) => c.as_mut().poll_close(cx),
+            Inner::TrackedLim(c) => c.as_mut().poll_close(cx),
         };
         this.note_err(&r);
         r
@@ -158,18 +185,24 @@ impl Channel for Probe {
         match &self.inner {
             Inner::Plain(c) => c.config(),
             Inner::Lim(c) => c.config(),
+            Inner::Tracked(c) => c.config(),
+            Inner::TrackedLim(c) => c.config(),
         }
     }
     fn in_flight_requests(&self) -> usize {
         match &self.inner {
             Inner::Plain(c) => c.in_flight_requests(),
             Inner::Lim(c) => c.in_flight_requests(),
+            Inner::Tracked(c) => c.in_flight_requests(),
+            Inner::TrackedLim(c) => c.in_flight_requests(),
         }
     }
     fn transport(&self) -> &Tr {
         match &self.inner {
             Inner::Plain(c) => c.transport(),
             Inner::Lim(c) => c.transport(),
+            Inner::Tracked(c) => c.transport(),
+            Inner::TrackedLim(c) => c.transport(),
         }
     }
 }
@@ -235,9 +268,12 @@ pub fn run_impl(s: &Script) -> (Vec<String>, Vec<String>) {
     let ctl = tr.clone();
     let pst = Rc::new(RefCell::new(PState { alive: true, ..Default::default() }));
     let basech = BaseChannel::new(Config { pending_response_buffer: s.buf }, tr);
-    let inner = match s.limit {
-        None => Inner::Plain(Box::pin(basech)),
-        Some(l) => Inner::Lim(Box::pin(basech.max_concurrent_requests(l))),
+    // odd transport capacities: the same channel behind TrackedChannel
+    let inner = match (s.limit, s.cap % 2 == 1) {
+        (None, false) => Inner::Plain(Box::pin(basech)),
+        (Some(l), false) => Inner::Lim(Box::pin(crate::srv::limited(basech, l, s.buf))),
+        (None, true) => Inner::Tracked(Box::pin(tracked(basech))),
+        (Some(l), true) => Inner::TrackedLim(Box::pin(crate::srv::limited(tracked(basech), l, s.buf))),
     };
     let probe = Probe { inner, st: pst.clone(), base };
     // scripted handlers: the serve function hands out the control block of the item being polled
